@@ -369,10 +369,13 @@ def merge_glue(chk, classes):
     kernel exactly once on the two operands' own tables, with the kernel's requires satisfied"""
     ex = glue.make_exec(chk)
     for A in classes:
-        try:
-            check_pair(chk, ex, A, A)
-        except X.Unsupported as e:
-            chk.undecided.append(("%s.merge(%s)" % (A, A), "unsupported construct in glue: %s" % e))
+        # heavy hitters: with and without an explicit phi on either side (a loaded sketch carries an
+        # explicit phi; phi is not a merge parameter)
+        for phi in ([(True, True)] if A != "HeavyHitters" else [(True, True), (False, False), (True, False), (False, True)]):
+            try:
+                check_pair(chk, ex, A, A, phi)
+            except X.Unsupported as e:
+                chk.undecided.append(("%s.merge(%s)" % (A, A), "unsupported construct in glue: %s" % e))
     chk.assumptions.update(glue.ASSUMED)
 
 
